@@ -663,6 +663,7 @@ func (g *histGen) start(kind int) []string {
 var c03Alphabet = []int{1, 2, 3, 4, 4, 4, 5, 6, 7, 7, 7, 7, 7}
 
 func runC03(o *out, thorough bool, r *rng, _ []string) map[string]interface{} {
+	lookupCases(o, r, 600) // ForEach with a failing callback must leave struct and bytes in agreement
 	g := &histGen{r: r}
 	n := 2500
 	if thorough {
@@ -760,6 +761,7 @@ func runC08(o *out, thorough bool, r *rng, _ []string) map[string]interface{} {
 	}
 	cloneMarshalMonitor(o, r, n/5)
 	callerBufferMonitor(o, r, n/2)
+	entryPointReuseMonitor(o, r, n/2)
 	return nil
 }
 
@@ -916,6 +918,73 @@ func reuseTwin(o *out, fields []string) {
 	}
 	if vis(m) != vis(twin) {
 		o.fail("reuse-leak", "301 "+strings.Join(fields, " "))
+	}
+}
+
+// entryPointReuseMonitor: every decoding entry point (Decode, Write, ReadFrom, UnmarshalBinary, GobDecode,
+// CloneTo as destination) into a Message that held another message before gives what a fresh Message gives.
+func entryPointReuseMonitor(o *out, r *rng, n int) {
+	for i := 0; i < n; i++ {
+		prev := r.validMessage(r.pick([]int{1, 4, 10}), r.pick([]int{20, 120, 400}))
+		next := r.validMessage(r.pick([]int{0, 1, 3, 8}), r.pick([]int{4, 40, 200}))
+		used := &stun.Message{Raw: fill(r, r.pick([]int{0, 64, 2000}), 1)[:0]}
+		if i%3 == 0 {
+			_ = stun.Decode(prev, used)
+		} else if i%3 == 1 {
+			_, _ = used.ReadFrom(bytes.NewReader(prev))
+		} else {
+			_, _ = used.Write(prev)
+		}
+		entry := i % 6
+		if entry == 2 && cap(used.Raw) < len(next) {
+			entry = 0 // ReadFrom reads into the existing capacity only
+		}
+		twin := &stun.Message{}
+		if entry == 2 {
+			twin.Raw = make([]byte, 0, cap(used.Raw))
+		}
+		apply := func(m *stun.Message) error {
+			switch entry {
+			case 0:
+				return stun.Decode(next, m)
+			case 1:
+				_, err := m.Write(next)
+				return err
+			case 2:
+				_, err := m.ReadFrom(bytes.NewReader(next))
+				return err
+			case 3:
+				return m.UnmarshalBinary(next)
+			case 4:
+				return m.GobDecode(next)
+			default:
+				src := new(stun.Message)
+				if err := stun.Decode(next, src); err != nil {
+					return err
+				}
+				return src.CloneTo(m)
+			}
+		}
+		var e1, e2 error
+		p1, _ := guarded(func() { e1 = apply(used) })
+		p2, _ := guarded(func() { e2 = apply(twin) })
+		detail := fmt.Sprintf("x entry=%d prev=%s next=%s", entry, fHex(prev), fHex(next))
+		if p1 != p2 || (e1 == nil) != (e2 == nil) {
+			o.failFor("C08", "reuse-twin-status", detail)
+			continue
+		}
+		if p1 || e1 != nil {
+			continue
+		}
+		vis := func(mm *stun.Message) string {
+			s := serMsg(mm)
+			s[15] = 0
+			return fmt.Sprint(s)
+		}
+		if vis(used) != vis(twin) || !bytes.Equal(used.Raw, next) {
+			o.failFor("C08", "reuse-leak", detail)
+		}
+		o.count(fmt.Sprintf("entry-point-reuse:entry=%d", entry))
 	}
 }
 
